@@ -248,6 +248,9 @@ func TestReplay(t *testing.T) {
 		t.Fatal(err)
 	}
 	x := string(buf)
+	if replayRenamed(t, x) {
+		return
+	}
 	o := orc.ParsePrintPreserves(x, orc.Opts{OwnGenerator: true})
 	if o.V == orc.Violation {
 		hx.Fail(t, "Replay", "ll", x, "%s", o.Describe())
